@@ -126,6 +126,9 @@ class Check:
         for k, _ in self.known_hits:
             if k == key:
                 return
+        if len(self.violations) >= 12 and self.known.match(self.pid, key) is None:
+            self.counters['violations_not_replayed_after_cap'] = self.counters.get('violations_not_replayed_after_cap', 0) + 1
+            return
         os.makedirs(os.path.join(ROOT, 'replays'), exist_ok=True)
         fname = os.path.join(ROOT, 'replays', '%s_%s.py' % (self.pid, hashlib.sha1(key.encode()).hexdigest()[:10]))
         with open(fname, 'w') as f:
